@@ -6,6 +6,7 @@ import (
 	"errors"
 	"fmt"
 	"sort"
+	"strings"
 	"sync"
 	"sync/atomic"
 	"testing"
@@ -28,15 +29,23 @@ import (
 // Step is one scripted action of an actor.
 //
 //	subscriber ops: sub, unsub, unsubtold (wait until told, then unsubscribe),
-//	                await (wait until told), stall, drain, wait
+//	                await (wait until told), stall, drain, wait,
+//	                episode (a stall episode, see (*world).episode)
 //	publisher ops:  pub (DocChanged), pubw (DocWatched noise), wait
 type Step struct {
 	Op   string `json:"op"`
 	Key  int    `json:"k,omitempty"`   // document key index (sub, pub, pubw)
-	Mode int    `json:"m,omitempty"`   // sub: 0 drain, 1 stalled from the start, 2 slow 5ms, 3 slow 25ms
-	Arg  int    `json:"arg,omitempty"` // wait: x10 ms
+	Mode int    `json:"m,omitempty"`   // sub: 0 drain, 1 stalled from the start, 2 slow 5ms, 3 slow 25ms; episode: style (see epStyle*)
+	Arg  int    `json:"arg,omitempty"` // wait: x10 ms; episode: number of sends to the stalled subscriber that are meant to time out
 	Pre  int    `json:"pre,omitempty"` // jitter code executed before the step
 }
+
+// Styles of a stall episode.
+const (
+	epPaced  = 0 // one tagged change per batch, each flush awaited through the sentinel; the consumer resumes after the last flush is complete
+	epBurst  = 1 // all tagged changes at once (distinct actors: no de-duplication), then as epPaced
+	epRacing = 2 // as epPaced, but the consumer resumes without waiting for the last flush: resume races the prune decision
+)
 
 // Actor is one goroutine of the case.
 type Actor struct {
@@ -83,8 +92,12 @@ func genScript() *rapid.Generator[Script] {
 			return 0
 		}
 		lazyLeft := rapid.IntRange(0, 2).Draw(t, "lazy") // at most two non-draining subscriber actors
-		noiseLeft := 3                                   // DocWatched events are not de-duplicated: bound them (see waitCap)
-		maxWait := kit.Pick(20, 30)                      // x10 ms per actor
+		episodeLeft := 0                                 // a stall episode costs ~0.5 s: at most one per script of this part (TestC17Stall has the focused ones)
+		if rapid.IntRange(0, 3).Draw(t, "episodes") == 0 {
+			episodeLeft = 1
+		}
+		noiseLeft := 3              // DocWatched events are not de-duplicated: bound them (see waitCap)
+		maxWait := kit.Pick(20, 30) // x10 ms per actor
 		for i := 0; i < nSub; i++ {
 			a := Actor{Kind: "S", ID: i, FinalPre: rapid.IntRange(0, 7).Draw(t, "fpre")}
 			lazy := false
@@ -99,6 +112,9 @@ func genScript() *rapid.Generator[Script] {
 				ops := []string{"sub", "sub", "unsub", "unsubtold", "unsubtold", "await", "await", "await", "wait", "wait"}
 				if lazy {
 					ops = append(ops, "stall", "drain")
+					if episodeLeft > 0 && j > 0 {
+						ops = append(ops, "episode", "episode")
+					}
 				}
 				if j == 0 && rapid.IntRange(0, 4).Draw(t, "first") > 0 {
 					st.Op = "sub"
@@ -117,6 +133,9 @@ func genScript() *rapid.Generator[Script] {
 						st.Arg = max(0, maxWait-waited)
 					}
 					waited += st.Arg
+				case "episode":
+					episodeLeft--
+					st.Arg, st.Mode = drawEpisode(t, sc.MaxFail)
 				}
 				a.Steps = append(a.Steps, st)
 			}
@@ -158,6 +177,122 @@ func genScript() *rapid.Generator[Script] {
 	})
 }
 
+// drawEpisode draws the size of a stall episode relative to the self-prune
+// threshold (below, at, above) and its style.
+func drawEpisode(t *rapid.T, maxFail int) (n, style int) {
+	th := maxFail
+	if th == 0 {
+		th = 2 // default threshold 100: every generated episode stays far below it
+	}
+	n = rapid.SampledFrom([]int{th - 1, th - 1, th, th, th, th + 1, th + 2, 0}).Draw(t, "timeouts")
+	n = min(max(n, 0), 4)
+	style = rapid.SampledFrom([]int{epPaced, epPaced, epPaced, epBurst, epBurst, epRacing}).Draw(t, "style")
+	return n, style
+}
+
+// genStallScript generates the scripts of the focused stall stratum: a small
+// self-prune threshold, one or two subscriber actors that go through stall
+// episodes below, at and above the threshold (and resubscribe afterwards), up
+// to two healthy subscribers and, in half of the cases, background publishers.
+func genStallScript() *rapid.Generator[Script] {
+	return rapid.Custom(func(t *rapid.T) Script {
+		sc := Script{Keys: 1, Worlds: kit.Pick(12, 16)}
+		sc.MaxFail = rapid.SampledFrom([]int{1, 2, 2, 2, 3, 3}).Draw(t, "maxfail")
+		if rapid.IntRange(0, 4).Draw(t, "twokeys") == 0 {
+			sc.Keys = 2
+		}
+		key := func() int {
+			if sc.Keys == 2 && rapid.IntRange(0, 2).Draw(t, "key") == 0 {
+				return 1
+			}
+			return 0
+		}
+		nStall := rapid.SampledFrom([]int{1, 1, 2}).Draw(t, "nstall")
+		nHealthy := rapid.IntRange(0, 2).Draw(t, "nhealthy")
+		nPub := rapid.SampledFrom([]int{0, 0, 1, 2}).Draw(t, "npub")
+		episodesLeft := kit.Pick(2, 3)
+		id := 0
+		for i := 0; i < nStall; i++ {
+			a := Actor{Kind: "S", ID: id, FinalPre: rapid.IntRange(0, 7).Draw(t, "fpre")}
+			id++
+			first := Step{Op: "sub", Key: key(), Pre: rapid.IntRange(0, 7).Draw(t, "pre")}
+			first.Mode = rapid.SampledFrom([]int{0, 0, 0, 0, 1, 2}).Draw(t, "mode")
+			a.Steps = append(a.Steps, first)
+			n := rapid.IntRange(1, 5).Draw(t, "nsteps")
+			had := false
+			for j := 0; j < n; j++ {
+				st := Step{Pre: rapid.IntRange(0, 7).Draw(t, "pre")}
+				ops := []string{"await", "unsub", "unsubtold", "sub", "drain"}
+				if episodesLeft > 0 {
+					ops = append(ops, "episode", "episode", "episode", "episode")
+				}
+				st.Op = rapid.SampledFrom(ops).Draw(t, "op")
+				if !had && episodesLeft > 0 && (j == 0 || j == n-1) && rapid.IntRange(0, 3).Draw(t, "force") > 0 {
+					st.Op = "episode"
+				}
+				switch st.Op {
+				case "sub":
+					st.Key = key()
+				case "episode":
+					had = true
+					episodesLeft--
+					st.Arg, st.Mode = drawEpisode(t, sc.MaxFail)
+				}
+				a.Steps = append(a.Steps, st)
+			}
+			sc.Actors = append(sc.Actors, a)
+		}
+		for i := 0; i < nHealthy; i++ {
+			a := Actor{Kind: "S", ID: id, FinalPre: rapid.IntRange(0, 7).Draw(t, "fpre")}
+			id++
+			a.Steps = append(a.Steps, Step{Op: "sub", Key: key(), Pre: rapid.IntRange(0, 7).Draw(t, "pre")})
+			n := rapid.IntRange(1, 4).Draw(t, "nsteps")
+			waited := 0
+			for j := 0; j < n; j++ {
+				st := Step{Pre: rapid.IntRange(0, 7).Draw(t, "pre")}
+				st.Op = rapid.SampledFrom([]string{"await", "await", "wait", "wait", "unsubtold", "sub"}).Draw(t, "op")
+				switch st.Op {
+				case "sub":
+					st.Key = key()
+				case "wait":
+					st.Arg = rapid.IntRange(1, 15).Draw(t, "arg")
+					if waited+st.Arg > 30 {
+						st.Arg = max(0, 30-waited)
+					}
+					waited += st.Arg
+				}
+				a.Steps = append(a.Steps, st)
+			}
+			sc.Actors = append(sc.Actors, a)
+		}
+		for i := 0; i < nPub; i++ {
+			a := Actor{Kind: "P", ID: rapid.IntRange(0, id+1).Draw(t, "pubid")}
+			n := rapid.IntRange(1, 8).Draw(t, "nsteps")
+			waited := 0
+			for j := 0; j < n; j++ {
+				st := Step{Pre: rapid.IntRange(0, 7).Draw(t, "pre")}
+				st.Op = rapid.SampledFrom([]string{"pub", "pub", "wait", "wait", "wait"}).Draw(t, "op")
+				switch st.Op {
+				case "pub":
+					st.Key = key()
+				case "wait":
+					st.Arg = rapid.IntRange(2, 15).Draw(t, "arg")
+					if waited+st.Arg > 40 {
+						st.Arg = max(0, 40-waited)
+					}
+					waited += st.Arg
+				}
+				a.Steps = append(a.Steps, st)
+			}
+			if rapid.Bool().Draw(t, "tail") {
+				a.Tail = append(a.Tail, Step{Op: "pub", Key: key(), Pre: rapid.IntRange(0, 7).Draw(t, "pre")})
+			}
+			sc.Actors = append(sc.Actors, a)
+		}
+		return sc
+	})
+}
+
 // ---------------------------------------------------------------------------
 // execution of one world
 
@@ -172,26 +307,37 @@ func docKey(world, k int) types.DocRefKey {
 	}
 }
 
+// Actor identities used by stall episodes (the script's own actors use 0..5).
+const (
+	epDriverBase   = 20 // + actor index: publishes the paced changes of an episode and the change after the resume
+	epBurstBase    = 30 // + j: the distinct actors of a one-batch burst
+	epSentinelBase = 40 // + actor index: the sentinel subscriber of an episode
+)
+
 type receipt struct {
 	stamp   int64
 	id      int
 	changed bool
+	tag     string
 }
 
 // subRec is one subscription (Subscribe .. Unsubscribe) of a subscriber actor.
 type subRec struct {
 	actor, id, key int
+	sentinel       bool
 	sub            *pubsub.DocSubscription
 	subEntry       int64
 	subExit        int64
-	unsubEntry     int64 // 0 while subscribed
-	unsubExit      int64
-	lazy           atomic.Bool // was ever stalled or slow: excluded from the obligations
-	paused         atomic.Bool
+	unsubEntry     int64        // 0 while subscribed
+	unsubExit      int64        //
+	lazy           atomic.Bool  // was ever stalled or slow (classification only)
+	paused         atomic.Bool  // the consumer does not read; set and cleared only by the owning actor
+	parked         atomic.Bool  // the consumer has acknowledged the pause
+	resumedAt      atomic.Int64 // stamp taken just before the last resume (0: never stalled)
+	prunedSeen     atomic.Bool  // an episode saw the subscription flagged dead / removed from the set
 	slow           gotime.Duration
-	wake           chan struct{}
-	quit           chan struct{}
-	done           chan struct{}
+	wake, ctl      chan struct{}
+	quit, done     chan struct{}
 
 	mu       sync.Mutex
 	receipts []receipt
@@ -211,7 +357,13 @@ type call struct {
 	key, id     int
 	entry, exit int64
 	note        string
+	tag         string // publishes: the Topic the event carries
 	rec         *subRec
+}
+
+type mark struct {
+	at int64
+	s  string
 }
 
 type world struct {
@@ -224,6 +376,7 @@ type world struct {
 	mu    sync.Mutex
 	calls []*call
 	subs  []*subRec
+	marks []mark
 	fail  *kit.Failure
 	ev    map[string]int
 }
@@ -244,8 +397,15 @@ func (w *world) count(k string) {
 	w.mu.Unlock()
 }
 
-func (w *world) begin(actor, step int, op string, key, id int, rec *subRec) *call {
-	c := &call{actor: actor, step: step, op: op, key: key, id: id, rec: rec}
+// mark adds a line to the history (not a call).
+func (w *world) mark(format string, a ...any) {
+	w.mu.Lock()
+	w.marks = append(w.marks, mark{w.tick(), fmt.Sprintf(format, a...)})
+	w.mu.Unlock()
+}
+
+func (w *world) begin(actor, step int, op string, key, id int, rec *subRec, tag string) *call {
+	c := &call{actor: actor, step: step, op: op, key: key, id: id, rec: rec, tag: tag}
 	w.mu.Lock()
 	w.calls = append(w.calls, c)
 	c.entry = w.tick() // stamped under the lock: calls are ordered by entry
@@ -266,6 +426,15 @@ func (w *world) guard(who string) {
 	}
 }
 
+// threshold is the number of consecutive timed-out sends after which the
+// publisher prunes a subscription of this case.
+func (w *world) threshold() int {
+	if w.sc.MaxFail > 0 {
+		return w.sc.MaxFail
+	}
+	return 100
+}
+
 // jitter varies the drawn pause code per world so that the concurrent worlds
 // of one case explore different interleavings of the same script.
 func (w *world) jitter(code, salt int) {
@@ -280,15 +449,22 @@ func (w *world) consume(r *subRec) {
 	defer w.guard("consumer")
 	ch := r.sub.Events()
 	for {
-		for r.paused.Load() {
+		if r.paused.Load() {
+			// stalled: acknowledge and do not touch the channel until resumed
+			r.parked.Store(true)
 			select {
 			case <-r.wake:
 			case <-r.quit:
 				return
 			}
+			r.parked.Store(false)
+			continue
 		}
 		if r.slow > 0 {
 			gotime.Sleep(r.slow)
+			if r.paused.Load() {
+				continue
+			}
 		}
 		select {
 		case ev, ok := <-ch:
@@ -299,28 +475,75 @@ func (w *world) consume(r *subRec) {
 				r.mu.Unlock()
 				return
 			}
-			r.receipts = append(r.receipts, receipt{stamp: st, id: actorIdx(ev.Actor), changed: ev.Type == events.DocChanged})
+			r.receipts = append(r.receipts, receipt{stamp: st, id: actorIdx(ev.Actor), changed: ev.Type == events.DocChanged, tag: ev.Body.Topic})
 			r.mu.Unlock()
+		case <-r.ctl: // the owner changed paused
 		case <-r.quit:
 			return
 		}
 	}
 }
 
+// stall makes the consumer of r stop reading and returns when it has
+// acknowledged (or has ended because the channel was closed).
+func (w *world) stall(r *subRec) {
+	r.lazy.Store(true)
+	r.paused.Store(true)
+	select {
+	case r.ctl <- struct{}{}:
+	default:
+	}
+	for !r.parked.Load() {
+		select {
+		case <-r.done:
+			return
+		default:
+		}
+		gotime.Sleep(50 * gotime.Microsecond)
+	}
+}
+
+// resume lets the consumer of r read again. The stamp taken before is the
+// floor of r's obligations: whatever was published before it may have run
+// into the publish timeout while the consumer did not read.
+func (w *world) resume(r *subRec) {
+	if !r.paused.Load() {
+		return
+	}
+	r.resumedAt.Store(w.tick())
+	r.paused.Store(false)
+	select {
+	case r.wake <- struct{}{}:
+	default:
+	}
+}
+
+// listed reports whether r's actor is in ClientIDs of its key.
+func (w *world) listed(r *subRec) bool {
+	for _, id := range w.ps.ClientIDs(docKey(w.idx, r.key)) {
+		if actorIdx(id) == r.id {
+			return true
+		}
+	}
+	return false
+}
+
 // pending lists the completed DocChanged publishes this subscription must
-// have been told about by now and has not.
-func (w *world) pending(r *subRec) []*call {
+// have been told about by now and has not (and the number of obligations):
+// those by another actor on its key that started after Subscribe returned
+// and after its consumer last resumed reading.
+func (w *world) pending(r *subRec) (out []*call, obligations int) {
+	floor := max(r.subExit, r.resumedAt.Load())
 	w.mu.Lock()
 	var ps []*call
 	for _, c := range w.calls {
-		if c.op == "pub" && c.exit != 0 && c.key == r.key && c.id != r.id && c.entry > r.subExit {
+		if c.op == "pub" && c.exit != 0 && c.key == r.key && c.id != r.id && c.entry > floor {
 			ps = append(ps, c)
 		}
 	}
 	w.mu.Unlock()
 	r.mu.Lock()
 	defer r.mu.Unlock()
-	var out []*call
 	for _, p := range ps {
 		told := false
 		for _, rc := range r.receipts {
@@ -333,67 +556,80 @@ func (w *world) pending(r *subRec) []*call {
 			out = append(out, p)
 		}
 	}
-	return out
+	return out, len(ps)
 }
 
-// await blocks until the (draining) subscription was told about every
-// completed publish, or its channel was closed; hitting the cap with an open
-// channel is the violation.
+// await blocks until the subscription (whose consumer is reading) was told
+// about every completed publish it has to be told about, or its channel was
+// closed; hitting the cap with an open channel is the violation. It is called
+// by the owning actor only, so the consumer reads for the whole wait.
 func (w *world) await(r *subRec, where string) {
-	if r.lazy.Load() {
-		return
+	if r.slow > 0 || r.paused.Load() {
+		return // not reading (or reading slowly) by script: the documented publish timeout may drop its events
 	}
 	deadline := gotime.Now().Add(waitCap)
-	first := true
-	for {
+	var prunedSince gotime.Time // when the subscription was first seen flagged dead / removed from the set
+	dead, listed := false, true
+	for iter := 0; ; iter++ {
 		if r.closedSeen() {
 			w.count("closed_while_subscribed")
 			return
 		}
-		if r.lazy.Load() {
-			return
-		}
-		pend := w.pending(r)
-		if first {
-			first = false
+		pend, obligations := w.pending(r)
+		if iter == 0 {
 			w.count("await")
 			if len(pend) > 0 {
 				w.count("await_had_to_wait")
 			}
 			w.mu.Lock()
-			for _, c := range w.calls {
-				if c.op == "pub" && c.exit != 0 && c.key == r.key && c.id != r.id && c.entry > r.subExit {
-					w.ev["obligation"]++
-				}
+			w.ev["obligation"] += obligations
+			if r.resumedAt.Load() != 0 {
+				w.ev["obligation_after_resume"] += obligations
 			}
 			w.mu.Unlock()
 		}
 		if len(pend) == 0 {
 			return
 		}
-		if gotime.Now().After(deadline) {
-			if r.sub.IsDead() {
-				// closed by the publisher (self-prune); the consumer will see it
-				gotime.Sleep(20 * gotime.Millisecond)
-				if r.closedSeen() || gotime.Now().After(deadline.Add(2*gotime.Second)) {
-					return
-				}
-				continue
+		now := gotime.Now()
+		late := now.After(deadline)
+		if late || iter%100 == 99 {
+			// (IsDead waits for a send that is running into its timeout: not on every poll)
+			dead, listed = r.sub.IsDead(), w.listed(r)
+			if !dead && listed {
+				prunedSince = gotime.Time{}
+			} else if prunedSince.IsZero() {
+				prunedSince = now
 			}
-			if w.lw.starved() {
+		}
+		if late {
+			pruned := !prunedSince.IsZero()
+			if !pruned && w.lw.starved() {
+				// still subscribed: a send may have timed out because this process did not get the CPU
 				w.count("inconclusive_starved")
 				return
 			}
-			registered := false
-			for _, id := range w.ps.ClientIDs(docKey(w.idx, r.key)) {
-				if actorIdx(id) == r.id {
-					registered = true
-				}
+			if pruned && now.Before(prunedSince.Add(waitCap)) {
+				// pruned by the publisher: the consumer is reading and gets the same cap to reach the close
+				gotime.Sleep(2 * gotime.Millisecond)
+				continue
 			}
 			p := pend[0]
-			w.failf("NEVER-TOLD", "%s: subscriber actor %d (Subscribe returned at stamp %d, channel still open, listed in ClientIDs: %v) "+
-				"received no DocChanged of actor %d after stamp %d although Publish [%d,%d] by actor %d on key %d completed %v ago or more (%d publishes untold)",
-				where, r.id, r.subExit, registered, p.id, p.entry, p.entry, p.exit, p.id, p.key, waitCap, len(pend))
+			var tags []string
+			for _, q := range pend {
+				tags = append(tags, fmt.Sprintf("%q[%d,%d]", q.tag, q.entry, q.exit))
+			}
+			state := "still subscribed: listed in ClientIDs, not flagged dead"
+			if pruned {
+				state = fmt.Sprintf("pruned by the publisher but not closed: IsDead=%v, listed in ClientIDs=%v for %v or more", dead, listed, waitCap)
+			}
+			resumed := ""
+			if ra := r.resumedAt.Load(); ra != 0 {
+				resumed = fmt.Sprintf(", its consumer had stopped reading and resumed at stamp %d", ra)
+			}
+			w.failf("NEVER-TOLD", "%s: subscriber actor %d (Subscribe returned at stamp %d%s; channel still open; %s) "+
+				"received no DocChanged of actor %d after stamp %d although Publish %q [%d,%d] by actor %d on key %d completed %v ago or more; untold publishes: %v",
+				where, r.id, r.subExit, resumed, state, p.id, p.entry, p.tag, p.entry, p.exit, p.id, p.key, waitCap, tags)
 			return
 		}
 		gotime.Sleep(2 * gotime.Millisecond)
@@ -404,13 +640,47 @@ type actorState struct {
 	cur *subRec
 }
 
-func (w *world) unsubscribe(ai, si int, st *actorState) {
-	r := st.cur
-	st.cur = nil
+// subscribe subscribes actor id on key k and starts its consumer; nil if the
+// subscriber limit rejected it.
+func (w *world) subscribe(ai, si, id, k, mode int, sentinel bool) *subRec {
+	r := &subRec{actor: ai, id: id, key: k, sentinel: sentinel, wake: make(chan struct{}, 1), ctl: make(chan struct{}, 1),
+		quit: make(chan struct{}), done: make(chan struct{})}
+	switch mode {
+	case 1:
+		r.lazy.Store(true)
+		r.paused.Store(true)
+	case 2:
+		r.lazy.Store(true)
+		r.slow = 5 * gotime.Millisecond
+	case 3:
+		r.lazy.Store(true)
+		r.slow = 25 * gotime.Millisecond
+	}
+	c := w.begin(ai, si, "sub", k, id, r, "")
+	sub, _, err := w.ps.Subscribe(context.Background(), actorID(id), docKey(w.idx, k), w.sc.Limit)
+	if err != nil {
+		w.end(c, "rejected")
+		if w.sc.Limit > 0 && errors.Is(err, pubsub.ErrTooManySubscribers) {
+			w.count("limit_rejected")
+		} else {
+			w.failf("SUBSCRIBE-ERROR", "Subscribe of actor %d failed: %v", id, err)
+		}
+		return nil
+	}
+	w.end(c, "")
+	r.sub, r.subEntry, r.subExit = sub, c.entry, c.exit
+	w.mu.Lock()
+	w.subs = append(w.subs, r)
+	w.mu.Unlock()
+	go w.consume(r)
+	return r
+}
+
+func (w *world) unsubscribe(ai, si int, r *subRec) {
 	if r.sub.IsDead() {
 		w.count("closed_by_publisher_before_unsub") // self-pruned after MaxFail timed-out sends
 	}
-	c := w.begin(ai, si, "unsub", r.key, r.id, r)
+	c := w.begin(ai, si, "unsub", r.key, r.id, r, "")
 	w.mu.Lock()
 	r.unsubEntry = c.entry
 	w.mu.Unlock()
@@ -427,9 +697,122 @@ func (w *world) unsubscribe(ai, si int, st *actorState) {
 	}
 }
 
+func (w *world) publish(ai, si int, op string, id, k int, tag string) *call {
+	typ := events.DocChanged
+	if op == "pubw" {
+		typ = events.DocWatched
+	}
+	c := w.begin(ai, si, op, k, id, nil, tag)
+	w.ps.Publish(context.Background(), actorID(id), events.DocEvent{Type: typ, Key: docKey(w.idx, k), Actor: actorID(id),
+		Body: events.DocEventBody{Topic: tag}})
+	w.end(c, "")
+	return c
+}
+
+// episode runs one stall episode on the actor's current subscription r:
+//
+//  1. a sentinel subscriber (own actor id, reading promptly) joins the key, r
+//     is brought up to date (await) and its consumer stops reading
+//     (acknowledged);
+//  2. n+1 tagged changes are published: the first one fills r's one-slot
+//     buffer, each of the other n sends to r runs into the 100 ms publish
+//     timeout and counts as a consecutive failure (epPaced: one change per
+//     batch, the next one is published once the sentinel has the previous one;
+//     epBurst: all at once under distinct actors). Then a marker change is
+//     published under r's own actor id (it is never sent to r) and awaited
+//     through the sentinel: the publisher goroutine flushes the batches one
+//     after the other, so all n timeouts have happened by then (epRacing skips
+//     the marker: the resume races the last flush);
+//  3. the consumer resumes and one more tagged change is published.
+//
+// There is no oracle of its own: await demands, as everywhere, that r receives
+// every completed change published after its consumer resumed (a DocChanged
+// of that actor stamped after the publish started) or observes its channel
+// closed; the changes of step 2 may be dropped by the publish timeout. Whether
+// r was pruned is only recorded (classes).
+func (w *world) episode(ai, si int, s Step, r *subRec) {
+	th, n, style := w.threshold(), min(max(s.Arg, 0), 6), s.Mode
+	rel := "below"
+	if n == th {
+		rel = "at"
+	} else if n > th {
+		rel = "above"
+	}
+	w.count("episode")
+	w.count("episode:" + rel + "_threshold")
+	w.count(fmt.Sprintf("episode:style=%d", style))
+	where := fmt.Sprintf("actor %d step %d (episode: %d sends meant to time out, threshold %d)", ai, si, n, th)
+	name := fmt.Sprintf("ep.a%d.s%d", ai, si)
+
+	sen := w.subscribe(ai, si, epSentinelBase+ai, r.key, 0, true)
+	pace := func() {
+		if sen != nil {
+			w.await(sen, where+", sentinel")
+		} else {
+			gotime.Sleep(250 * gotime.Millisecond) // the subscriber limit rejected the sentinel
+		}
+	}
+	w.await(r, where+", before the stall")
+	w.stall(r)
+	w.mark("subscriber id %d key=%d stops reading (%s)", r.id, r.key, name)
+	drv := epDriverBase + ai
+	if style == epBurst {
+		for j := 0; j <= n; j++ {
+			w.publish(ai, si, "pub", epBurstBase+j, r.key, fmt.Sprintf("%s.stalled%d", name, j))
+		}
+		pace()
+	} else {
+		for j := 0; j <= n; j++ {
+			w.publish(ai, si, "pub", drv, r.key, fmt.Sprintf("%s.stalled%d", name, j))
+			if style != epRacing || j < n {
+				pace()
+			}
+		}
+	}
+	pruned := false
+	if style != epRacing {
+		w.publish(ai, si, "pub", r.id, r.key, name+".marker")
+		pace()
+		pruned = r.sub.IsDead() || !w.listed(r)
+		if pruned {
+			r.prunedSeen.Store(true)
+			w.count("episode:pruned")
+			w.count("episode:" + rel + "_threshold->pruned")
+		} else {
+			w.count("episode:kept")
+			w.count("episode:" + rel + "_threshold->kept")
+		}
+	}
+	w.jitter(s.Pre+3, si)
+	w.resume(r)
+	resumedAt := r.resumedAt.Load()
+	w.mark("subscriber id %d key=%d resumes reading (%s; pruned by now: %v)", r.id, r.key, name, pruned)
+	w.publish(ai, si, "pub", drv, r.key, name+".after-resume")
+	w.await(r, where+", after the resume")
+
+	if left, _ := w.pending(r); r.closedSeen() {
+		w.count("episode:channel_closed_observed")
+		if pruned {
+			w.count("episode:pruned->closed_observed")
+		}
+	} else if len(left) == 0 && r.slow == 0 {
+		w.count("episode:told_after_resume")
+	}
+	r.mu.Lock()
+	for _, rc := range r.receipts {
+		if rc.stamp > resumedAt && len(rc.tag) > len(name) && rc.tag[:len(name)+1] == name+"." && rc.tag != name+".after-resume" {
+			w.count("episode:buffered_change_read_after_resume")
+			break
+		}
+	}
+	r.mu.Unlock()
+	if sen != nil {
+		w.unsubscribe(ai, si, sen)
+	}
+}
+
 func (w *world) exec(ai int, a *Actor, si int, s Step, st *actorState) {
 	w.jitter(s.Pre, si)
-	ctx := context.Background()
 	switch s.Op {
 	case "wait":
 		gotime.Sleep(gotime.Duration(s.Arg) * 10 * gotime.Millisecond)
@@ -437,45 +820,19 @@ func (w *world) exec(ai int, a *Actor, si int, s Step, st *actorState) {
 		if st.cur != nil {
 			return
 		}
-		k := s.Key % w.sc.Keys
-		r := &subRec{actor: ai, id: a.ID, key: k, wake: make(chan struct{}, 1), quit: make(chan struct{}), done: make(chan struct{})}
-		switch s.Mode {
-		case 1:
-			r.lazy.Store(true)
-			r.paused.Store(true)
-		case 2:
-			r.lazy.Store(true)
-			r.slow = 5 * gotime.Millisecond
-		case 3:
-			r.lazy.Store(true)
-			r.slow = 25 * gotime.Millisecond
-		}
-		c := w.begin(ai, si, "sub", k, a.ID, r)
-		sub, _, err := w.ps.Subscribe(ctx, actorID(a.ID), docKey(w.idx, k), w.sc.Limit)
-		if err != nil {
-			w.end(c, "rejected")
-			if w.sc.Limit > 0 && errors.Is(err, pubsub.ErrTooManySubscribers) {
-				w.count("limit_rejected")
-			} else {
-				w.failf("SUBSCRIBE-ERROR", "Subscribe of actor %d failed: %v", a.ID, err)
-			}
-			return
-		}
-		w.end(c, "")
-		r.sub, r.subEntry, r.subExit = sub, c.entry, c.exit
-		w.mu.Lock()
-		w.subs = append(w.subs, r)
-		w.mu.Unlock()
-		st.cur = r
-		go w.consume(r)
+		st.cur = w.subscribe(ai, si, a.ID, s.Key%w.sc.Keys, s.Mode, false)
 	case "unsub":
 		if st.cur != nil {
-			w.unsubscribe(ai, si, st)
+			r := st.cur
+			st.cur = nil
+			w.unsubscribe(ai, si, r)
 		}
 	case "unsubtold":
 		if st.cur != nil {
-			w.await(st.cur, fmt.Sprintf("actor %d step %d (unsubtold)", ai, si))
-			w.unsubscribe(ai, si, st)
+			r := st.cur
+			st.cur = nil
+			w.await(r, fmt.Sprintf("actor %d step %d (unsubtold)", ai, si))
+			w.unsubscribe(ai, si, r)
 		}
 	case "await":
 		if st.cur != nil {
@@ -483,26 +840,20 @@ func (w *world) exec(ai int, a *Actor, si int, s Step, st *actorState) {
 		}
 	case "stall":
 		if st.cur != nil {
-			st.cur.lazy.Store(true)
-			st.cur.paused.Store(true)
+			w.stall(st.cur)
+			w.mark("subscriber id %d key=%d stops reading", st.cur.id, st.cur.key)
 		}
 	case "drain":
 		if st.cur != nil && st.cur.paused.Load() {
-			st.cur.paused.Store(false)
-			select {
-			case st.cur.wake <- struct{}{}:
-			default:
-			}
+			w.resume(st.cur)
+			w.mark("subscriber id %d key=%d resumes reading", st.cur.id, st.cur.key)
+		}
+	case "episode":
+		if st.cur != nil {
+			w.episode(ai, si, s, st.cur)
 		}
 	case "pub", "pubw":
-		k := s.Key % w.sc.Keys
-		typ := events.DocChanged
-		if s.Op == "pubw" {
-			typ = events.DocWatched
-		}
-		c := w.begin(ai, si, s.Op, k, a.ID, nil)
-		w.ps.Publish(ctx, actorID(a.ID), events.DocEvent{Type: typ, Key: docKey(w.idx, k), Actor: actorID(a.ID)})
-		w.end(c, "")
+		w.publish(ai, si, s.Op, a.ID, s.Key%w.sc.Keys, fmt.Sprintf("a%d.s%d", ai, si))
 	}
 }
 
@@ -541,7 +892,9 @@ func (w *world) run() {
 				if a.Kind == "S" {
 					w.jitter(a.FinalPre, ai)
 					if st.cur != nil {
-						w.unsubscribe(ai, len(a.Steps), st)
+						r := st.cur
+						st.cur = nil
+						w.unsubscribe(ai, len(a.Steps), r)
 					}
 					return
 				}
@@ -558,15 +911,22 @@ func (w *world) run() {
 	close(finalGo)
 	tailWG.Wait()
 
-	// every subscription has been unsubscribed: consumers must see the close
+	// every subscription has been unsubscribed (also those the publisher had
+	// pruned before): its consumer, woken if it was stalled, must get to the
+	// closed channel
 	w.mu.Lock()
 	subs := append([]*subRec{}, w.subs...)
 	w.mu.Unlock()
 	for _, r := range subs {
 		select {
 		case <-r.done:
-		case <-gotime.After(3 * gotime.Second):
+		case <-gotime.After(waitCap):
 			w.count("channel_left_open_after_unsub")
+			if r.unsubExit != 0 {
+				w.failf("OPEN-AFTER-UNSUBSCRIBE", "subscriber actor %d on key %d: %v after its Unsubscribe returned (stamp %d) its event channel is still open "+
+					"(IsDead=%v, seen pruned by the publisher before: %v): whoever reads the channel is never released",
+					r.id, r.key, waitCap, r.unsubExit, r.sub.IsDead(), r.prunedSeen.Load())
+			}
 			close(r.quit)
 			<-r.done
 		}
@@ -582,7 +942,7 @@ func (w *world) run() {
 			}
 		}
 		r.mu.Unlock()
-		if late > 2 && !r.lazy.Load() {
+		if late > 2 {
 			w.failf("TOLD-AFTER-UNSUBSCRIBE", "subscriber actor %d received %d events after its Unsubscribe returned (stamp %d)", r.id, late, r.unsubExit)
 		}
 	}
@@ -645,13 +1005,26 @@ func (w *world) classify() {
 	}
 	perActor := map[int]int{}
 	for _, r := range w.subs {
+		ev["events_received"] += len(r.receipts)
+		if r.sentinel {
+			ev["sentinel_subscription"]++
+			continue
+		}
 		perActor[r.actor]++
 		if r.lazy.Load() {
 			ev["lazy_subscription"]++
+			if r.resumedAt.Load() != 0 {
+				ev["stalled_then_resumed_subscription"]++
+			}
 		} else {
 			ev["draining_subscription"]++
 		}
-		ev["events_received"] += len(r.receipts)
+		if r.prunedSeen.Load() {
+			ev["pruned_subscription"]++
+			if r.closedAt != 0 && (r.unsubEntry == 0 || r.closedAt < r.unsubEntry) {
+				ev["pruned_subscription_saw_close_before_unsubscribing"]++
+			}
+		}
 	}
 	for _, n := range perActor {
 		if n > 1 {
@@ -678,7 +1051,14 @@ func (w *world) history(limit int) []string {
 	}
 	var ls []line
 	for _, c := range w.calls {
-		ls = append(ls, line{c.entry, fmt.Sprintf("[%d,%d] actor#%d(id %d) %s key=%d %s", c.entry, c.exit, c.actor, c.id, c.op, c.key, c.note)})
+		tag := ""
+		if c.tag != "" {
+			tag = fmt.Sprintf(" tag=%q", c.tag)
+		}
+		ls = append(ls, line{c.entry, fmt.Sprintf("[%d,%d] actor#%d(id %d) %s key=%d%s %s", c.entry, c.exit, c.actor, c.id, c.op, c.key, tag, c.note)})
+	}
+	for _, m := range w.marks {
+		ls = append(ls, line{m.at, fmt.Sprintf("[%d] %s", m.at, m.s)})
 	}
 	for _, r := range w.subs {
 		for _, rc := range r.receipts {
@@ -686,7 +1066,7 @@ func (w *world) history(limit int) []string {
 			if rc.changed {
 				t = "DocChanged"
 			}
-			ls = append(ls, line{rc.stamp, fmt.Sprintf("[%d] subscriber id %d key=%d receives %s of id %d", rc.stamp, r.id, r.key, t, rc.id)})
+			ls = append(ls, line{rc.stamp, fmt.Sprintf("[%d] subscriber id %d key=%d receives %s of id %d tag=%q", rc.stamp, r.id, r.key, t, rc.id, rc.tag)})
 		}
 		if r.closedAt != 0 {
 			ls = append(ls, line{r.closedAt, fmt.Sprintf("[%d] subscriber id %d key=%d sees its channel closed", r.closedAt, r.id, r.key)})
@@ -797,18 +1177,35 @@ func scriptClasses(sc Script, ev map[string]int) map[string]int {
 	}
 	if sc.MaxFail > 0 {
 		cl["script:small_maxfail"] = 1
+		cl[fmt.Sprintf("script:maxfail=%d", sc.MaxFail)] = 1
+	}
+	if n := sc.episodes(); n > 0 {
+		cl[fmt.Sprintf("script:episodes=%d", n)] = 1
 	}
 	return cl
 }
 
-func TestC17Scripts(t *testing.T) {
-	col := stats.New(prop, "scripts")
+func (s Script) episodes() int {
+	n := 0
+	for _, a := range s.Actors {
+		for _, st := range a.Steps {
+			if st.Op == "episode" {
+				n++
+			}
+		}
+	}
+	return n
+}
+
+// runScripts is the body of the two script parts.
+func runScripts(t *testing.T, part string, gen *rapid.Generator[Script], nonTrivial func(outcome) bool) {
+	col := stats.New(prop, part)
 	var best *Script
 	var bestOut outcome
 	harnessErr := ""
 	defer func() {
 		if best != nil {
-			name := fmt.Sprintf("scripts-%016x", hashOf(*best))
+			name := fmt.Sprintf("%s-%016x", part, hashOf(*best))
 			path := kit.WriteReplay(prop, "script", name, *best, bestOut.fail, bestOut.hist)
 			col.AddViolation(stats.Violation{Replay: path, Kind: bestOut.fail.Kind, Msg: bestOut.fail.Msg})
 			kit.ReportViolation(prop, path, bestOut.fail)
@@ -821,15 +1218,18 @@ func TestC17Scripts(t *testing.T) {
 		}
 		col.Flush(true)
 	}()
-	gen := genScript()
 	evals := 0
+	totals := map[string]int{} // per executed world, not per case
 	rapid.Check(t, func(rt *rapid.T) {
 		sc := gen.Draw(rt, "script")
 		h := hashOf(sc)
-		setInflight("scripts", "script", fmt.Sprintf("scripts-%016x", h), sc)
+		setInflight(part, "script", fmt.Sprintf("%s-%016x", part, h), sc)
 		reps := 1
 		if best != nil {
 			reps = 3 // shrinking a schedule-dependent failure
+			if sc.episodes() > 0 {
+				reps = 1 // (a failing episode costs the cap)
+			}
 		}
 		var out outcome
 		for i := 0; i < reps; i++ {
@@ -838,10 +1238,17 @@ func TestC17Scripts(t *testing.T) {
 				break
 			}
 		}
-		col.Record(h, out.nonTrivial && out.fail == nil, scriptClasses(sc, out.ev), func() any {
+		for k, v := range out.ev {
+			if strings.HasPrefix(k, "episode") || strings.HasPrefix(k, "pruned_subscription") || k == "inconclusive_starved" ||
+				k == "obligation_after_resume" || k == "closed_by_publisher_before_unsub" {
+				totals[k] += v
+				col.SetExtra("worlds:"+k, totals[k])
+			}
+		}
+		col.Record(h, nonTrivial(out) && out.fail == nil, scriptClasses(sc, out.ev), func() any {
 			return map[string]any{"script": sc, "events": out.ev}
 		})
-		if evals++; evals%25 == 0 {
+		if evals++; evals%25 == 0 || part == "stall" {
 			col.Flush(false) // keep the shard file fresh: the process may be killed by a crash in the code under test
 		}
 		if out.fail != nil {
@@ -858,15 +1265,34 @@ func TestC17Scripts(t *testing.T) {
 	})
 }
 
+func TestC17Scripts(t *testing.T) {
+	runScripts(t, "scripts", genScript(), func(out outcome) bool { return out.nonTrivial })
+}
+
+// TestC17Stall is the focused stall stratum. Non-trivial: in some world a
+// stall episode ran on a live subscription and the publisher then either
+// pruned the stalled subscriber or kept it (i.e. the flushes were observed).
+func TestC17Stall(t *testing.T) {
+	runScripts(t, "stall", genStallScript(), func(out outcome) bool {
+		return out.ev["episode:pruned"]+out.ev["episode:kept"]+out.ev["episode:style=2"] > 0
+	})
+}
+
 // replayScript re-executes a saved script. Failures depend on the schedule, so
-// the script is run 200 times (25 rounds of 8 concurrent worlds).
+// the script is run 200 times (25 rounds of 8 concurrent worlds); a script
+// with stall episodes (about a second each, and what they look for does not
+// depend on a narrow window) 40 times.
 func replayScript(raw json.RawMessage) *kit.Failure {
 	var sc Script
 	if err := json.Unmarshal(raw, &sc); err != nil {
 		return kit.Failf("HARNESS", "HARNESS-ERROR bad script: %v", err)
 	}
 	sc.Worlds = 8
-	for i := 0; i < 25; i++ {
+	rounds := 25
+	if sc.episodes() > 0 {
+		rounds = 5
+	}
+	for i := 0; i < rounds; i++ {
 		if out := evalScript(sc); out.fail != nil {
 			for _, h := range out.hist {
 				fmt.Printf("    %s\n", h)
